@@ -254,12 +254,7 @@ class DelAttrMethod(MethodDescriptor):
 
             attr_spec = self.__spec_class__.attrs.get(attr)
 
-            if (
-                force
-                or not attr_spec
-                or attr_spec.default is MISSING
-                or attr_spec.is_masked
-            ):
+            if not attr_spec or attr_spec.default is MISSING or attr_spec.is_masked:
                 self.__delattr__.__raw__(self, attr)
                 if not skip_invalidation:
                     invalidate_attrs(self, attr)
@@ -464,7 +459,7 @@ class DeepCopyMethod(MethodDescriptor):
 
     @staticmethod
     def deepcopy(self, memo):
-        if self.__spec_class__.frozen or self.__spec_class__.do_not_copy:
+        if self.__spec_class__.do_not_copy:
             return self
         new = self.__class__.__new__(self.__class__)
         for attr, value in self.__dict__.items():
